@@ -23,18 +23,18 @@ func (c *compAdapter) OutParamPort(n string) *sp.OutParamPort { return c.outp(n)
 // TagValue is the tag a MapToTags node attaches: derived from the path only.
 // tagValueFor: the value node n (a MapToTags) attaches to the file at path.
 func tagValueFor(n *Node, path string) string {
+	// (FNV-1a with a final mix: neighbouring names must spread over the groups)
+	h := uint32(2166136261)
+	for _, c := range []byte(baseName(path)) {
+		h = (h ^ uint32(c)) * 16777619
+	}
+	h ^= h >> 15
+	h *= 2246822519
+	h ^= h >> 13
+	if n.TagSkip > 0 && (h>>8)%uint32(n.TagSkip) == 0 {
+		return "" // this file gets no tag at all (the map function returns an empty map)
+	}
 	if n.TagGroups > 0 {
-		// (FNV-1a with a final mix: neighbouring names must spread over the groups)
-		h := uint32(2166136261)
-		for _, c := range []byte(baseName(path)) {
-			h = (h ^ uint32(c)) * 16777619
-		}
-		h ^= h >> 15
-		h *= 2246822519
-		h ^= h >> 13
-		if n.TagSkip > 0 && (h>>8)%uint32(n.TagSkip) == 0 {
-			return "" // this file gets no tag at all (the map function returns an empty map)
-		}
 		return fmt.Sprintf("g%d", h%uint32(n.TagGroups))
 	}
 	return TagValue(path)
